@@ -5,7 +5,7 @@ import random
 from . import tlc, render
 from .common import Scratch, seed as _seed, vlog
 
-SIGS = [1, 2, 3, 4, 5, 6, 7, 8]
+SIGS = [1, 2, 3, 4, 5, 6, 7, 8, 9, 10, 11]
 CFG = ("SPECIFICATION Spec\nCONSTANTS MaxTok = %d\n MaxStack = %d\n MaxStmts = %d\n SigId = %d\n Stmts = %s\n Lean = %s\n"
        "INVARIANT Emit\nCHECK_DEADLOCK FALSE\n")
 
@@ -42,6 +42,47 @@ def shape(stmts):
     return ",".join(out)
 
 
+def features(node, acc=None):
+    """constructs a program uses: node kinds, operators, builtins, which arguments are read"""
+    acc = set() if acc is None else acc
+    if isinstance(node, dict):
+        t = node.get("T")
+        if t in ("BinOp", "UnaryOp", "BoolOp"):
+            acc.add(node["op"]["T"])
+        elif t == "Compare":
+            acc.add("Cmp" + node["ops"][0]["T"])
+        elif t == "Call":
+            acc.add("call:" + node["func"].get("id", "?"))
+        elif t == "Name":
+            acc.add("var:" + node["id"])
+        elif t == "Subscript":
+            acc.add("Sub:" + node["slice"]["T"])
+        elif t in ("If", "For", "IfExp", "AugAssign", "Tuple"):
+            acc.add(t)
+        for v in node.values():
+            features(v, acc)
+    elif isinstance(node, list):
+        for v in node:
+            features(v, acc)
+    return acc
+
+
+def stratified(ps, rng, cap):
+    """at most `cap` programs, spread over the distinct feature sets (rare constructs are not crowded out)"""
+    rng.shuffle(ps)
+    strata = {}
+    for p in ps:
+        strata.setdefault(frozenset(features(p["body"])), []).append(p)
+    keys = sorted(strata, key=lambda k: (len(strata[k]), sorted(k)))
+    out, i = [], 0
+    while len(out) < cap and any(strata[k] for k in keys):
+        k = keys[i % len(keys)]
+        if strata[k]:
+            out.append(strata[k].pop())
+        i += 1
+    return out
+
+
 def generate(tier, sd):
     """-> (list of {"src", "origin", "ast"}, generator stats)"""
     key = (tier, sd)
@@ -65,8 +106,7 @@ def generate(tier, sd):
                 gstats["distinct"] += st.get("distinct", 0)
                 gstats["bfs_programs"] += len(ps)
                 if quick:
-                    rng.shuffle(ps)
-                    ps = ps[:80 if sig in deep else 30]
+                    ps = stratified(ps, rng, 80 if sig in deep else 30)
                 for p in ps:
                     out.append((p, f"ProgGen-bfs-sig{sig}"))
             # statement structure: lean expressions, deeper BFS, stratified by the shape of the body
@@ -85,8 +125,7 @@ def generate(tier, sd):
             ps, st = _run(sc, sig, 0, True, sim=(150 if quick else 3000), depth=(11 if quick else 13), sd=sd * 100 + sig)
             gstats["sim_programs"] += len(ps)
             if quick:
-                rng.shuffle(ps)
-                ps = ps[:60]
+                ps = stratified(ps, rng, 60)
             for p in ps:
                 out.append((p, f"ProgGen-sim-sig{sig}"))
     res = []
